@@ -118,7 +118,16 @@ impl World {
                 bin.push(t);
                 bin.push(n);
                 for k in 0..n {
-                    bin.extend_from_slice(&(64512u32 + k as u32).to_be_bytes());
+                    // AS numbers do not enter the decision order; attribute blocks with an odd
+                    // token carry numbers whose octets look like segment headers (type codes
+                    // 1-4, small counts), so a walker that loses step with the segment
+                    // structure mis-reads them instead of skipping harmless octets
+                    let asn = if tok % 2 == 1 {
+                        u32::from_be_bytes([1 + (k % 2), 1 + ((k / 2) % 4), 2 - (k % 2), 1 + (k % 3)])
+                    } else {
+                        64512u32 + k as u32
+                    };
+                    bin.extend_from_slice(&asn.to_be_bytes());
                 }
             }
             out.push(Attribute::new_with_bin(Attribute::AS_PATH, bin).unwrap());
